@@ -27,7 +27,8 @@ REQUESTS_NEED_IMPL = True
 THEOREMS = ["C15_id_is_manifest_hash", "C15_extid_parse", "C15_swhid_text_roundtrip", "C15_extid_optional_lines_exact",
             "C15_extid_presence", "C15_extid_injective", "C15_emd_parse", "C15_context_lookup", "C15_fetcher_space_needed",
             "C15_optional_lines_exact", "C15_lines_per_field", "C15_emd_injective", "C15_constructor_normalises",
-            "C15_date_second_only", "C15_context_admissible", "C15_keys_wf", "C15_authority_types_table", "C15_extid_satisfiable", "C15_emd_satisfiable"]
+            "C15_date_second_only", "C15_context_admissible", "C15_keys_wf", "C15_authority_types_table", "C15_extid_satisfiable", "C15_emd_satisfiable",
+            "C15_swhid_printer_is_C08s"]
 RULE = ("ExtID: type strings (plain, empty, with space / newline, non-ASCII = rejected) x versions {0, 1, -1, +-2^70, random} x "
         "extid bytes (empty, newlines, leading space, binary) x 5 target types x payload pair {absent, both, half = rejected}. "
         "Metadata: 7 target kinds x every admissible subset of the context fields (167 combinations, enumerated from a table "
